@@ -26,6 +26,12 @@ def site(fi, node=None):
 
 def check(m, run):
     c18.ag7(m, run)
+    # find_ctrlpts, the bounding box and voxelisation read the unweighted view of rational shapes: it is the current one (IV1 on the rational
+    # caches) and it is the object's own storage (ES1), shared with C09
+    from .. import rules_state as _rs20
+    from . import c09 as _c09
+    _rs20.iv1(m, run, [('NURBS', 'Curve'), ('NURBS', 'Surface'), ('NURBS', 'Volume')], caches_filter=lambda c: c in ("_cache['ctrlpts']", "_cache['weights']"))
+    _c09.no_escape(m, run)
     from .. import ops_common as oc
     oc.optional_coordinate_rule(m, run)
     c17.ag5(m, run)
